@@ -115,7 +115,7 @@ fn main() {
                 let parts: Vec<&str> = tk.split(',').collect();
                 let t = parts.first().and_then(|x| x.parse::<u32>().ok()).unwrap_or(1);
                 let k = parts.get(1).and_then(|x| x.parse::<u32>().ok()).unwrap_or(1);
-                amplify::run(t, k, parts.get(2) == Some(&"avc"), i as u64, &mut out);
+                amplify::run(t, k, parts.get(2).copied().unwrap_or("hevc"), i as u64, &mut out);
             }
             let n = out.events;
             drop(out);
